@@ -56,9 +56,10 @@ pub fn roots(prop: &str, tier: &str) -> Vec<Scenario> {
     let mut out: Vec<Scenario> = all.into_iter().filter(|s| !s.tag.contains("/fine") && !s.tag.contains("fSome(0.01)") && s.params.bias < 1.0).collect();
     // goal roots are drawn by the goal sampler here, so the two RRT-Connect root variants coincide
     out.retain(|s| s.goal_root == 0);
-    if tier == "quick" {
-        // one step size per (space, world, planner) is enough for the quick tier: the largest radius
-        // for PRM (a roadmap with a tiny radius answers nothing), the smallest step for the trees
+    {
+        // one step size per (space, world, planner, radius ratio): the largest radius for PRM (a roadmap
+        // with a tiny radius answers nothing), the smallest step for the trees. (Both tiers: the thorough
+        // tier has more worlds and four times the seeds, not every step size again.)
         out.sort_by(|a, b| {
             let pref = |s: &Scenario| if s.params.pk == Pk::Prm { -s.params.step } else { s.params.step };
             pref(a).partial_cmp(&pref(b)).unwrap_or(std::cmp::Ordering::Equal)
@@ -304,15 +305,17 @@ fn transitions_kit<K: Kit>(prop: &'static str, tier: &'static str, jobs: &[(usiz
 /// Scenario roots of the deep-transition mode: the property's BFS lattice, thinned.
 pub fn transition_roots(prop: &str, tier: &str) -> Vec<Scenario> {
     let mut out: Vec<Scenario> = crate::props_tree::scenarios(prop, tier).into_iter().filter(|s| s.params.bias < 1.0 && s.goal_root == 0).collect();
-    if tier == "quick" {
+    {
+        // (both tiers: one step size per (space, world, planner, radius ratio); the quick tier also leaves
+        // out the most cluttered world)
         let mut seen = std::collections::HashSet::new();
-        out.retain(|s| s.world.name != "subset1111" && seen.insert((s.kit, s.world.name.clone(), s.params.pk, (s.params.radius / s.params.step * 100.0) as i64)));
+        out.retain(|s| (tier != "quick" || s.world.name != "subset1111") && seen.insert((s.kit, s.world.name.clone(), s.params.pk, (s.params.radius / s.params.step * 100.0) as i64)));
     }
     out
 }
 
 pub fn run_transitions(prop: &'static str, tier: &'static str) -> Report {
-    let (seeds, iterations) = if tier == "quick" { (3u64, 80usize) } else { (8, 250) };
+    let (seeds, iterations) = if tier == "quick" { (3u64, 80usize) } else { (8, 150) };
     let rs = transition_roots(prop, tier);
     let mut rep = Report::new();
     rep.count("deep_transition_scenarios", rs.len() as u64);
